@@ -234,6 +234,18 @@ fn block_follow(p: &LuaParser) -> bool {
 }
 
 fn parse_stat(p: &mut LuaParser) -> ParseResult {
+    if !p.enter_level() {
+        // consume the token so that the error recovery of parse_stats makes progress
+        p.bump();
+        return Err(ParseFailReason::UnexpectedToken);
+    }
+
+    let result = parse_stat_unchecked(p);
+    p.leave_level();
+    result
+}
+
+fn parse_stat_unchecked(p: &mut LuaParser) -> ParseResult {
     let cm = match p.current_token() {
         LuaTokenKind::TkIf => parse_if(p)?,
         LuaTokenKind::TkWhile => parse_while(p)?,
